@@ -24,6 +24,8 @@ theorem mu_decreases {σ σ' : State} {a : Act} (hc : σ.cs = .idle ∨ σ.i.loo
   cases a with
   | push d v => cases ha
   | sendFail d => cases ha
+  | stall d => cases ha
+  | unstall d => cases ha
   | iniCancel => cases ha
   | shutdown => cases ha
   | tick => cases ha
@@ -117,6 +119,16 @@ theorem ending_step {σ σ' : State} {a : Act} (h : ending σ = true) (hs : step
     grind
   | sendFail d =>
     have e := step_sendFail hs; subst e
+    apply ending_setDir h
+    simp only [Dir.ending, Dir.pendingData]
+    grind
+  | stall d =>
+    have e := step_stall hs; subst e
+    apply ending_setDir h
+    simp only [Dir.ending, Dir.pendingData]
+    grind
+  | unstall d =>
+    have e := step_unstall hs; subst e
     apply ending_setDir h
     simp only [Dir.ending, Dir.pendingData]
     grind
@@ -220,9 +232,22 @@ theorem rLatch_none {σ : State} {d : D} (h : step σ (.rLatch d) = none) (hl : 
   | false => rfl
   | true => simp [step, hl, hb] at h
 
-theorem rProc_none {σ : State} {d : D} (h : step σ (.rProc d) = none) (v : Ev) : (σ.dir d).loop ≠ .holding v := by
-  intro hc
-  cases v <;> simp only [step, hc] at h <;> (try split at h) <;> cases h
+/-- a loop that holds a value and cannot move is blocked in `Send` -/
+theorem rProc_none {σ : State} {d : D} (h : step σ (.rProc d) = none) {v : Ev} (hc : (σ.dir d).loop = .holding v) :
+    blockedInSend σ d = true := by
+  cases v with
+  | data i =>
+    simp only [step, hc] at h
+    split at h
+    · rename_i hok
+      split at h
+      · rename_i hst
+        simp [blockedInSend, hc, hok, hst, Ev.isData]
+      · cases h
+    · cases h
+  | unknown => simp [step, hc] at h
+  | eof => simp [step, hc] at h
+  | err => simp [step, hc] at h
 
 theorem rDefer_none {σ : State} {d : D} (h : step σ (.rDefer d) = none) : (σ.dir d).loop ≠ .finished := by
   intro hc; cases d <;> simp [step, hc] at h
@@ -243,8 +268,8 @@ theorem hCancel_none {σ : State} (h : step σ .hCancel = none) (h1 : σ.s.loop 
 theorem hReturn_none {σ : State} (h : step σ .hReturn = none) : σ.h ≠ .cancelled := by
   intro hw; simp [step, hw] at h
 
-theorem quiescent_cases {σ : State} (hc : Ctl σ) (henv : GrpcStreamEnv σ.env) (hq : Quiescent σ) :
-    Done σ ∨ Calm σ := by
+theorem quiescent_cases {σ : State} (hc : Ctl σ) (henv : GrpcStreamEnv σ.env) (hq : Quiescent σ)
+    (hb : ∀ d, blockedInSend σ d = false) : Done σ ∨ Calm σ := by
   obtain ⟨c1, c2, c3a, c3b, c3c, c4, c5, c6s, c6i⟩ := hc
   obtain ⟨e1, e2, e3⟩ := henv
   have q (a : Act) (ha : a.isInternal = true := by rfl) := hq a ha
@@ -255,14 +280,14 @@ theorem quiescent_cases {σ : State} (hc : Ctl σ) (henv : GrpcStreamEnv σ.env)
     have s1 : σ.s.loop = .done := by
       cases hs : σ.s.loop with
       | waiting => have := rLatch_none (q (.rLatch .s)) hs; simp [hl] at this
-      | holding v => exact absurd hs (rProc_none (q (.rProc .s)) v)
+      | holding v => have := rProc_none (q (.rProc .s)) hs; rw [hb] at this; cases this
       | finished => exact absurd hs (rDefer_none (q (.rDefer .s)))
       | guard => exact absurd hs c1
       | done => rfl
     have i1 : σ.i.loop = .done := by
       cases hs : σ.i.loop with
       | waiting => have := rLatch_none (q (.rLatch .i)) hs; simp [hl] at this
-      | holding v => exact absurd hs (rProc_none (q (.rProc .i)) v)
+      | holding v => have := rProc_none (q (.rProc .i)) hs; rw [hb] at this; cases this
       | finished => exact absurd hs (rDefer_none (q (.rDefer .i)))
       | guard =>
         rcases c3b hs with h | h
@@ -301,14 +326,14 @@ theorem quiescent_cases {σ : State} (hc : Ctl σ) (henv : GrpcStreamEnv σ.env)
     have s1 : σ.s.loop = .waiting := by
       cases hs : σ.s.loop with
       | waiting => rfl
-      | holding v => exact absurd hs (rProc_none (q (.rProc .s)) v)
+      | holding v => have := rProc_none (q (.rProc .s)) hs; rw [hb] at this; cases this
       | finished => exact absurd hs (rDefer_none (q (.rDefer .s)))
       | guard => exact absurd hs c1
       | done => exact absurd (Or.inl hs) nl
     have i1 : σ.i.loop = .waiting := by
       cases hs : σ.i.loop with
       | waiting => rfl
-      | holding v => exact absurd hs (rProc_none (q (.rProc .i)) v)
+      | holding v => have := rProc_none (q (.rProc .i)) hs; rw [hb] at this; cases this
       | finished => exact absurd hs (rDefer_none (q (.rDefer .i)))
       | guard => exact absurd (Or.inr (Or.inl hs)) nl
       | done => exact absurd (Or.inr (Or.inr hs)) nl
@@ -333,33 +358,180 @@ theorem quiescent_cases {σ : State} (hc : Ctl σ) (henv : GrpcStreamEnv σ.env)
 
 
 
-theorem quiescent_ending_done {σ : State} (hc : Ctl σ) (henv : GrpcStreamEnv σ.env) (he : Ending σ)
-    (hq : Quiescent σ) : Done σ := by
-  rcases quiescent_cases hc henv hq with h | h
+/-- a quiescent state with an ending is `Done` unless a relay loop is blocked in `Send` -/
+theorem quiescent_ending_done_of_not_blocked {σ : State} (hc : Ctl σ) (henv : GrpcStreamEnv σ.env) (he : Ending σ)
+    (hq : Quiescent σ) (hb : ∀ d, blockedInSend σ d = false) : Done σ := by
+  rcases quiescent_cases hc henv hq hb with h | h
   · exact h
   · have := calm_not_ending h
     unfold Ending at he
     rw [this] at he; cases he
 
+/-- `Done` and "a loop is blocked in `Send`" exclude each other -/
+theorem done_not_blocked {σ : State} (h : Done σ) (d : D) : blockedInSend σ d = false := by
+  obtain ⟨h1, h2, _⟩ := h
+  cases d <;> simp [blockedInSend, State.dir, h1, h2]
+
+/-- the exact characterisation: a quiescent state with an ending is `Done` iff no relay loop is blocked in `Send` -/
+theorem quiescent_ending_done_iff {σ : State} (hc : Ctl σ) (henv : GrpcStreamEnv σ.env) (he : Ending σ)
+    (hq : Quiescent σ) : Done σ ↔ ∀ d, blockedInSend σ d = false :=
+  ⟨done_not_blocked, quiescent_ending_done_of_not_blocked hc henv he hq⟩
+
+/-! ### stalled peers -/
+
+theorem noSendCanBlock_not_blocked {σ : State} (h : NoSendCanBlock σ) (d : D) : blockedInSend σ d = false := by
+  obtain ⟨h1, h2⟩ := h
+  cases d <;> simp only [blockedInSend, State.dir]
+  · cases hs : σ.s.stalled with
+    | false => simp
+    | true => simp [h1 hs]
+  · cases hs : σ.i.stalled with
+    | false => simp
+    | true => simp [h2 hs]
+
+theorem unstalled_noSendCanBlock {σ : State} (h : Unstalled σ) : NoSendCanBlock σ := by
+  obtain ⟨h1, h2⟩ := h
+  constructor <;> intro hs <;> simp_all
+
+theorem unstalled_not_blocked {σ : State} (h : Unstalled σ) (d : D) : blockedInSend σ d = false :=
+  noSendCanBlock_not_blocked (unstalled_noSendCanBlock h) d
+
+/-- only `stall` makes a peer stalled -/
+theorem stalled_step {σ σ' : State} {a : Act} (hs : step σ a = some σ') (ha : ∀ d, a ≠ .stall d) (d' : D)
+    (h : (σ'.dir d').stalled = true) : (σ.dir d').stalled = true := by
+  cases a with
+  | push d v => have e := step_push hs; subst e; cases d <;> cases d' <;> exact h
+  | sendFail d => have e := step_sendFail hs; subst e; cases d <;> cases d' <;> exact h
+  | stall d => exact absurd rfl (ha d)
+  | unstall d => have e := step_unstall hs; subst e; cases d <;> cases d' <;> first | exact h | cases h
+  | iniCancel => have e := step_iniCancel hs; subst e; cases d' <;> exact h
+  | shutdown => have e := step_shutdown hs; subst e; cases d' <;> exact h
+  | tick => obtain ⟨_, _, _, _, e⟩ := step_tick hs; subst e; cases d' <;> exact h
+  | lCheck d => obtain ⟨_, e⟩ := step_lCheck hs; subst e; cases d <;> cases d' <;> exact h
+  | lRecv d => obtain ⟨_, v, q, _, e⟩ := step_lRecv hs; subst e; cases d <;> cases d' <;> exact h
+  | lHand d => obtain ⟨v, _, _, e⟩ := step_lHand hs; subst e; cases d <;> cases d' <;> exact h
+  | lQuit d => obtain ⟨v, _, _, e⟩ := step_lQuit hs; subst e; cases d <;> cases d' <;> exact h
+  | rLatch d => obtain ⟨_, _, e⟩ := step_rLatch hs; subst e; cases d <;> cases d' <;> exact h
+  | rClosed d => obtain ⟨_, _, e⟩ := step_rClosed hs; subst e; cases d <;> cases d' <;> exact h
+  | rProc d =>
+    rcases step_rProc hs with ⟨i, _, _, e⟩ | ⟨v, _, _, e⟩ <;> subst e <;> cases d <;> cases d' <;> exact h
+  | rDefer d =>
+    cases d with
+    | s => obtain ⟨_, e⟩ := step_rDefer_s hs; subst e; cases d' <;> exact h
+    | i => obtain ⟨_, e⟩ := step_rDefer_i hs; subst e; cases d' <;> exact h
+  | csReturn =>
+    obtain ⟨_, h2⟩ := step_csReturn hs
+    rcases h2 with ⟨_, _, e⟩ | ⟨_, e⟩ <;> subst e
+    · cases d' <;> exact h
+    · cases d'
+      · simpa [State.dir] using h
+      · exact h
+  | guardRecv => obtain ⟨_, _, e⟩ := step_guardRecv hs; subst e; cases d' <;> exact h
+  | hCancel => obtain ⟨_, _, _, e⟩ := step_hCancel hs; subst e; cases d' <;> exact h
+  | hReturn => obtain ⟨_, e⟩ := step_hReturn hs; subst e; cases d' <;> exact h
+
+/-- a stream that is done / broken / cancelled stays so: `Send` keeps failing -/
+theorem sendOk_false_step {σ σ' : State} {a : Act} (hs : step σ a = some σ') (d' : D)
+    (h : sendOk σ d' = false) : sendOk σ' d' = false := by
+  cases a with
+  | push d v => have e := step_push hs; subst e; cases d <;> cases d' <;> exact h
+  | sendFail d =>
+    have e := step_sendFail hs; subst e
+    cases d <;> cases d' <;> simp_all [sendOk, State.dir, State.setDir]
+  | stall d => have e := step_stall hs; subst e; cases d <;> cases d' <;> exact h
+  | unstall d => have e := step_unstall hs; subst e; cases d <;> cases d' <;> exact h
+  | iniCancel => have e := step_iniCancel hs; subst e; cases d' <;> simp [sendOk]
+  | shutdown => have e := step_shutdown hs; subst e; cases d' <;> simp_all [sendOk] <;> grind
+  | tick => obtain ⟨_, _, _, _, e⟩ := step_tick hs; subst e; cases d' <;> exact h
+  | lCheck d => obtain ⟨_, e⟩ := step_lCheck hs; subst e; cases d <;> cases d' <;> exact h
+  | lRecv d => obtain ⟨_, v, q, _, e⟩ := step_lRecv hs; subst e; cases d <;> cases d' <;> exact h
+  | lHand d => obtain ⟨v, _, _, e⟩ := step_lHand hs; subst e; cases d <;> cases d' <;> exact h
+  | lQuit d => obtain ⟨v, _, _, e⟩ := step_lQuit hs; subst e; cases d <;> cases d' <;> exact h
+  | rLatch d => obtain ⟨_, _, e⟩ := step_rLatch hs; subst e; cases d <;> cases d' <;> exact h
+  | rClosed d => obtain ⟨_, _, e⟩ := step_rClosed hs; subst e; cases d <;> cases d' <;> exact h
+  | rProc d =>
+    rcases step_rProc hs with ⟨i, _, _, e⟩ | ⟨v, _, _, e⟩ <;> subst e <;> cases d <;> cases d' <;> exact h
+  | rDefer d =>
+    cases d with
+    | s => obtain ⟨_, e⟩ := step_rDefer_s hs; subst e; cases d' <;> exact h
+    | i => obtain ⟨_, e⟩ := step_rDefer_i hs; subst e; cases d' <;> exact h
+  | csReturn =>
+    obtain ⟨_, h2⟩ := step_csReturn hs
+    rcases h2 with ⟨_, _, e⟩ | ⟨_, e⟩ <;> subst e
+    · cases d' <;> exact h
+    · cases d'
+      · simpa [sendOk] using h
+      · exact h
+  | guardRecv => obtain ⟨_, _, e⟩ := step_guardRecv hs; subst e; cases d' <;> exact h
+  | hCancel => obtain ⟨_, _, _, e⟩ := step_hCancel hs; subst e; cases d' <;> simp_all [sendOk]
+  | hReturn => obtain ⟨_, e⟩ := step_hReturn hs; subst e; cases d' <;> simp_all [sendOk] <;> grind
+
+theorem noSendCanBlock_step {σ σ' : State} {a : Act} (h : NoSendCanBlock σ) (hs : step σ a = some σ')
+    (ha : ∀ d, a ≠ .stall d) : NoSendCanBlock σ' :=
+  ⟨fun hst => sendOk_false_step hs .s (h.1 (stalled_step hs ha .s hst)),
+   fun hst => sendOk_false_step hs .i (h.2 (stalled_step hs ha .i hst))⟩
+
+theorem unstalled_step {σ σ' : State} {a : Act} (h : Unstalled σ) (hs : step σ a = some σ')
+    (ha : ∀ d, a ≠ .stall d) : Unstalled σ' := by
+  obtain ⟨u1, u2⟩ := h
+  constructor
+  · cases hb : σ'.s.stalled with
+    | false => rfl
+    | true => have := stalled_step hs ha .s hb; simp only [State.dir] at this; rw [u1] at this; cases this
+  · cases hb : σ'.i.stalled with
+    | false => rfl
+    | true => have := stalled_step hs ha .i hb; simp only [State.dir] at this; rw [u2] at this; cases this
+
+theorem internal_ne_stall {a : Act} (ha : a.isInternal = true) (d : D) : a ≠ .stall d := by
+  rintro rfl; cases ha
+
+/-- a predicate preserved by every action but `stall` holds after every run without a `stall` -/
+theorem run_induct_no_stall {P : State → Prop} {σ : State} (h : P σ)
+    (hstep : ∀ σ σ' a, P σ → step σ a = some σ' → (∀ d, a ≠ .stall d) → P σ')
+    (acts : List Act) (ha : ∀ d, Act.stall d ∉ acts) : P (run σ acts) := by
+  induction acts generalizing σ with
+  | nil => exact h
+  | cons a r ih =>
+    rw [run_cons]
+    have hr : ∀ d, Act.stall d ∉ r := fun d hm => ha d (List.mem_cons_of_mem _ hm)
+    cases hs : step σ a with
+    | none => exact ih h hr
+    | some σ' =>
+      refine ih (hstep σ σ' a h hs ?_) hr
+      intro d e; subst e; exact ha d List.mem_cons_self
+
+theorem unstalled_run {σ : State} (h : Unstalled σ) (acts : List Act) (ha : ∀ d, Act.stall d ∉ acts) :
+    Unstalled (run σ acts) :=
+  run_induct_no_stall h (fun _ _ _ h hs ha => unstalled_step h hs ha) acts ha
+
+theorem noSendCanBlock_run {σ : State} (h : NoSendCanBlock σ) (acts : List Act) (ha : ∀ d, Act.stall d ∉ acts) :
+    NoSendCanBlock (run σ acts) :=
+  run_induct_no_stall h (fun _ _ _ h hs ha => noSendCanBlock_step h hs ha) acts ha
+
+theorem quiescent_ending_done {σ : State} (hc : Ctl σ) (henv : GrpcStreamEnv σ.env) (he : Ending σ)
+    (hq : Quiescent σ) (hu : NoSendCanBlock σ) : Done σ :=
+  quiescent_ending_done_of_not_blocked hc henv he hq (noSendCanBlock_not_blocked hu)
+
 /-! ### (4) `settle` -/
 
-theorem settle_done : ∀ (fuel : Nat) (σ : State), Ctl σ → GrpcStreamEnv σ.env → Ending σ → mu σ ≤ fuel →
+theorem settle_done : ∀ (fuel : Nat) (σ : State), Ctl σ → GrpcStreamEnv σ.env → Ending σ → NoSendCanBlock σ → mu σ ≤ fuel →
     Done (settle fuel σ)
-  | 0, σ, hc, henv, he, hm => by
-    apply quiescent_ending_done hc henv he
+  | 0, σ, hc, henv, he, hu, hm => by
+    apply quiescent_ending_done hc henv he _ hu
     intro a ha
     cases hs : step σ a with
     | none => rfl
     | some σ' => have := mu_decreases_ctl hc ha hs; omega
-  | fuel + 1, σ, hc, henv, he, hm => by
+  | fuel + 1, σ, hc, henv, he, hu, hm => by
     simp only [settle]
     cases hf : firstEnabled σ internalActs with
-    | none => exact quiescent_ending_done hc henv he (quiescent_of_firstEnabled_none hf)
+    | none => exact quiescent_ending_done hc henv he (quiescent_of_firstEnabled_none hf) hu
     | some σ' =>
       obtain ⟨a, ha, hs⟩ := firstEnabled_some hf
       have hd := mu_decreases_ctl hc (internalActs_internal ha) hs
       have henv' : GrpcStreamEnv σ'.env := by rw [step_env hs]; exact henv
-      exact settle_done fuel σ' (ctl_step hc hs) henv' (ending_step he hs) (by omega)
+      exact settle_done fuel σ' (ctl_step hc hs) henv' (ending_step he hs)
+        (noSendCanBlock_step hu hs (internal_ne_stall (internalActs_internal ha))) (by omega)
 
 /-- `settle` only ever applies internal actions: its result is a fine-step run -/
 theorem settle_is_run : ∀ (fuel : Nat) (σ : State),
